@@ -39,6 +39,19 @@ Theorem resume_equivalent_next_refresh : forall cfg cks s1 s2,
   kstep cfg cks s1 Step = kstep cfg cks s2 Step.
 Proof. exact resume_refresh_l. Qed.
 
+(* ... hence over every continuation: the resumed run and the uninterrupted run produce the same actions (which factors
+   are updated when, which second-order data every later step preconditions with) for ANY history that follows *)
+Theorem resume_equivalent_over_any_history : forall cfg cks s1 s2 h,
+  same_but_inv s1 s2 ->
+  (inv s1 = inv s2 -> krun cfg cks s1 h = krun cfg cks s2 h) /\
+  (is_inv_step s1 = true -> fa (after_updates cfg s1) <> FNone -> fg (after_updates cfg s1) <> FNone ->
+   krun cfg cks s1 (Step :: h) = krun cfg cks s2 (Step :: h)).
+Proof.
+  intros cfg cks s1 s2 h Hs. split.
+  - intros Hi. now rewrite (same_but_inv_eq s1 s2 Hs Hi).
+  - intros H1 H2 H3. cbn [krun]. now rewrite (resume_refresh_l cfg cks s1 s2 Hs H1 H2 H3).
+Qed.
+
 (* otherwise the resumed run uses exactly the data recomputed from the restored factors *)
 Theorem resume_recomputed : forall s i, same_but_inv s (set_inv s i).
 Proof. exact set_inv_same. Qed.
@@ -81,6 +94,7 @@ Print Assumptions save_load_restores.
 Print Assumptions resume_equivalent_same_data.
 Print Assumptions resume_equivalent_next_refresh.
 Print Assumptions resume_recomputed.
+Print Assumptions resume_equivalent_over_any_history.
 Print Assumptions load_comm_guarded.
 Print Assumptions load_comm_none_mem_opt.
 Print Assumptions save_and_plain_load_are_silent.
